@@ -81,6 +81,7 @@ def _verify_one(args):
         return dict(error='%s::%s: %s: %s' % (file, qual, type(e).__name__, str(e)[:300]))
     info = dict(file=file, qualname=qual, lines=list(fi.lines), sha256=fi.sha256, dropped=fi.dropped,
                 obligations=len(ex.obls), paths=ex.n_paths, notes=ex.notes)
+    info['used_spec_lemmas'] = sorted(getattr(ex, 'used_specs', ()))
     return dict(info=info, obls=[ObRec(o) for o in ex.obls], assumptions=list(REG.assumptions))
 
 def _mutant_one(args):
@@ -158,6 +159,10 @@ def verify_functions(prop, mod, res, tier):
         if not o['obls']: res.errors.append('%s::%s generated zero obligations' % (o['info']['file'], o['info']['qualname']))
         res.functions.append(o['info']); res.obls.extend(o['obls'])
         for a in o['assumptions']: REG.assume(a)
+        # a spec-sequence lemma used as a hypothesis must be proved in this run (the module lists the sequence in SPECSEQS)
+        listed = {s_.name for s_ in getattr(mod, 'SPECSEQS', [])}
+        for nm in o['info'].get('used_spec_lemmas', []):
+            if nm not in listed: res.errors.append('%s uses the nth lemma of %s, which props/%s.py does not list in SPECSEQS (unproved hypothesis)' % (o['info']['qualname'], nm, prop))
 
 def run_mutants(prop, mod, res):
     """must-fail self-test: in-memory mutants of the real functions; each must make its named obligation fail"""
